@@ -572,9 +572,15 @@ Definition exit_moments_plain (p : prog) (ms : list mono) (N : nat) : list (list
 (* ------------------------------------------------------------------------------------ *)
 (* The guard Polar conditions on.  LoopGuardTransformer turns `while G: B` into
    `while true: if G & C: B' end` where C collects the conditions of first-level single-branch
-   ifs of B (_collapse_first_level_ifs); the combined condition is the one marked
-   is_loop_guard, and ConditionsNormalizer takes program.original_loop_guard from the first
-   marked condition (get_loop_guard).  [stored_guard] is that condition. *)
+   ifs of B (_collapse_first_level_ifs).
+   Current rule (since /repo 294789f): the SOURCE guard G itself carries the flag
+   is_original_loop_guard, and program.original_loop_guard is (the normalised form of) G.
+   Old rule: the merged condition G & C was the one found by get_loop_guard. *)
+Definition stored_guard (p : prog) : cond := p_guard p.
+
+Theorem stored_guard_is_termination_event p s : negb (holds (stored_guard p) s) = stopped p s.
+Proof. reflexivity. Qed.
+
 Definition and_simpl (c1 c2 : cond) : cond :=
   match c1, c2 with
   | CTrue, _ => c2
@@ -590,24 +596,25 @@ Fixpoint collapsed_cond (fuel : nat) (b : block) : cond :=
       | _ => CTrue
       end
   end.
-Definition stored_guard (fuel : nat) (p : prog) : cond := and_simpl (p_guard p) (collapsed_cond fuel (p_body p)).
+Definition stored_guard_old (fuel : nat) (p : prog) : cond := and_simpl (p_guard p) (collapsed_cond fuel (p_body p)).
 Definition collapse_free (fuel : nat) (p : prog) : Prop := collapsed_cond fuel (p_body p) = CTrue.
 
 Lemma holds_and_simpl c1 c2 s : holds (and_simpl c1 c2) s = holds c1 s && holds c2 s.
 Proof. destruct c1, c2; simpl; try reflexivity; rewrite ?andb_true_r; reflexivity. Qed.
 
-Theorem stored_guard_collapse_free fuel p s :
-  collapse_free fuel p -> holds (stored_guard fuel p) s = holds (p_guard p) s.
+(* the old rule was right exactly for bodies without a collapsed first-level if ... *)
+Theorem stored_guard_old_collapse_free fuel p s :
+  collapse_free fuel p -> holds (stored_guard_old fuel p) s = holds (p_guard p) s.
 Proof.
-  unfold collapse_free, stored_guard. intros H. rewrite holds_and_simpl, H. cbn [holds]. apply andb_true_r.
+  unfold collapse_free, stored_guard_old. intros H. rewrite holds_and_simpl, H. cbn [holds]. apply andb_true_r.
 Qed.
 
-(* the stored guard implies the source guard, so the event Polar conditions on CONTAINS the
-   termination event; it is strictly larger exactly on the states G & not C *)
-Theorem stored_guard_weaker fuel p s :
-  stopped p s = true -> negb (holds (stored_guard fuel p) s) = true.
+(* ... in general the old stored guard only implied the source guard: the event conditioned on
+   CONTAINED the termination event and was strictly larger on the states G & not C *)
+Theorem stored_guard_old_weaker fuel p s :
+  stopped p s = true -> negb (holds (stored_guard_old fuel p) s) = true.
 Proof.
-  unfold stopped, stored_guard. rewrite holds_and_simpl. intros H. apply negb_true_iff in H. rewrite H. reflexivity.
+  unfold stopped, stored_guard_old. rewrite holds_and_simpl. intros H. apply negb_true_iff in H. rewrite H. reflexivity.
 Qed.
 
 Local Open Scope string_scope.
